@@ -37,10 +37,14 @@ GaussScope == {[k |-> "gauss", d |-> d, dd |-> 4, sg |-> sg] : d \in {0 - 6, 0, 
 LegScope == {[k |-> "leg", xq |-> RNorm(k, 4), nd |-> nd] : k \in (0 - 6)..6, nd \in 1..4}
 WigScope == {[k |-> "wig", l |-> l] : l \in 1..(IF Thorough THEN 6 ELSE 4)}
 TabScope == {[k |-> "tab", d |-> d] : d \in 0..5}
-FitScope == {[k |-> "fit", lo |-> lo, hi |-> hi, ra |-> r[1], rb |-> r[2], style |-> st, p |-> p, q |-> q] :
-               lo \in {<<1, 2>>}, hi \in {<<9, 2>>, <<40, 1>>},
-               r \in {<< <<0, 1>>, <<0, 1>> >>, << <<1, 1>>, <<8, 1>> >>, << <<1, 4>>, <<100, 1>> >>},
-               st \in {"linear", "log"}, p \in {<<3, 2>>}, q \in {<<0 - 1, 4>>, <<2, 1>>}}
+FitScope ==
+  {s \in {[k |-> "fit", lo |-> lo, hi |-> hi, ra |-> r[1], rb |-> r[2], style |-> st, p |-> p, q |-> q] :
+             lo \in {<<1, 2>>}, hi \in {<<9, 2>>, <<40, 1>>},
+             r \in {<< <<0, 1>>, <<0, 1>> >>, << <<1, 1>>, <<8, 1>> >>, << <<1, 4>>, <<100, 1>> >>,
+                    << <<0, 1>>, <<8, 1>> >>,           \* lower limit 0 with an upper limit: the given range
+                    << <<2, 1>>, <<0, 1>> >>},          \* rangeb = 0 means "not given": the range of the data
+             st \in {"linear", "log"}, p \in {<<3, 2>>}, q \in {<<0 - 1, 4>>, <<2, 1>>}} :
+     ~(s.style = "log" /\ s.ra[1] = 0 /\ s.rb[1] # 0)}      \* a geometric grid cannot start at 0
 
 \* ------------------------------------------------------------------ filon
 FilCS == 100
